@@ -11,6 +11,8 @@ that renaming a local or swapping commutative operands does not fire a rule.
 import ast
 import itertools
 
+from .canon import canon, negate
+
 AC_OPS = (ast.Add, ast.Mult, ast.BitAnd, ast.BitOr)
 
 
@@ -24,7 +26,7 @@ def is_any(n):
 
 
 def parse(src):
-    tree = ast.parse(src.strip())
+    tree = canon(ast.parse(src.strip()))
     if len(tree.body) == 1 and isinstance(tree.body[0], ast.Expr):
         return tree.body[0].value
     if len(tree.body) == 1:
@@ -86,6 +88,30 @@ def match(p, n, b):
         for perm in itertools.permutations(ns):
             bb = dict(b)
             if all(match(x, y, bb) for x, y in zip(ps, perm)):
+                b.clear()
+                b.update(bb)
+                return True
+        return False
+    if isinstance(p, ast.If) and not p.orelse and n.orelse and not (
+            len(n.orelse) == 1 and isinstance(n.orelse[0], ast.If)):
+        # template without else: `if T: A` also matches `if not T: .. else: A`
+        bb = dict(b)
+        if match(p.test, n.test, bb) and match(p.body, n.body, bb):
+            b.clear()
+            b.update(bb)
+            return True
+        bb = dict(b)
+        if match(negate(p.test), n.test, bb) and match(p.body, n.orelse, bb):
+            b.clear()
+            b.update(bb)
+            return True
+        return False
+    if isinstance(p, ast.Compare) and len(p.ops) == 1 and isinstance(
+            p.ops[0], (ast.Eq, ast.NotEq)) and len(n.ops) == 1 and \
+            type(p.ops[0]) is type(n.ops[0]):
+        for x, y in ((n.left, n.comparators[0]), (n.comparators[0], n.left)):
+            bb = dict(b)
+            if match(p.left, x, bb) and match(p.comparators[0], y, bb):
                 b.clear()
                 b.update(bb)
                 return True
@@ -166,3 +192,11 @@ def require(ctx, rule, construct, pattern, root, message, where=None,
     found = find(pattern, root, bindings)
     ctx.check(rule, construct, bool(found), message, where, sample=sample)
     return found[0][1] if found else None
+
+
+def same(pattern, node, bindings=None):
+    """Does `node` itself (not a sub-node) match the template?  Returns the
+    binding or None."""
+    p = parse(pattern) if isinstance(pattern, str) else pattern
+    b = dict(bindings or {})
+    return b if match(p, node, b) else None
